@@ -452,24 +452,20 @@ def specGetspan (a : AState) (irb : RB) (l c : Int) (g : SpanArgs) (r : String) 
         let n := sp.cell.cols - sp.offset
         let ct := a.content L C
         if !homogeneous a L C n then s!"get_span: the run at ({L},{C}) is {n} columns long in the dump, which is not one piece of the same content"
-        else if g.info ∧ nc ≠ toString n then s!"get_span n_columns is {nc}, the run is {n} columns long"
         else
-          let active := match ct with | .skip => false | _ => true
-          if g.info ∧ act ≠ (if active then "1" else "0") then s!"get_span is_active is {act}, specification says {active}"
-          else if !active then (if ret = "0" then "" else s!"get_span returned {ret} for a skipped run, specification says 0")
-          else
-            let bytes := specSpanBytes ct n
-            let fits := !g.buf || decide (bytes.length ≤ g.len)
-            let wantLen : Int := if fits then bytes.length else -1
-            let wantPen := if g.infoPen then showPen (if g.info then (contentPen ct).getD Pen.empty else prefillPen) else "{NULL}"
-            let wantTf := if g.info then (if g.buf then "B" else "N") else "U"
-            -- nothing is promised about the buffer when the text does not fit
-            let wantBuffer := if fits then showBuffer (if g.buf then some g.len else none) bytes (decide (g.len > bytes.length)) else buffer
-            if pen ≠ wantPen then s!"get_span pen is {pen}, specification says {wantPen}"
-            else if tf ≠ wantTf then s!"get_span info.text is {tf}, specification says {wantTf}"
-            else if (g.info ∧ il ≠ toString wantLen) ∨ buffer ≠ wantBuffer then
-              s!"get_span text: info.len={il} buffer={buffer}, specification says info.len={if g.info then toString wantLen else il} buffer={wantBuffer} ({n} columns of {showContent ct})"
-            else if ret ≠ toString wantLen then s!"get_span returned {ret}, specification says {wantLen} (the length of the text)"
+          -- the specification's answer (`specSpanOut`), printed like the harness prints the call's
+          let w := specSpanOut ct n g.info g.infoPen g.buf g.len
+          let want := showSpanFields g w.ret w.isActive w.nColumns w.len w.textSet w.pen w.bytes w.term
+          match parseSpanFields want with
+          | none => "unparsable"
+          | some (wret, wact, wnc, wil, wtf, wpen, wbuffer) =>
+            if nc ≠ wnc then s!"get_span n_columns is {nc}, the run is {wnc} columns long"
+            else if act ≠ wact then s!"get_span is_active is {act}, specification says {wact}"
+            else if pen ≠ wpen then s!"get_span pen is {pen}, specification says {wpen}"
+            else if tf ≠ wtf then s!"get_span info.text is {tf}, specification says {wtf}"
+            else if il ≠ wil ∨ buffer ≠ wbuffer then
+              s!"get_span text: info.len={il} buffer={buffer}, specification says info.len={wil} buffer={wbuffer} ({n} columns of {showContent ct})"
+            else if ret ≠ wret then s!"get_span returned {ret}, specification says {wret} (the length of the text)"
             else ""
 
 /-! ### Execution speed on wide buffers
